@@ -6,6 +6,7 @@ import (
 	"math/rand/v2"
 	"reflect"
 	"runtime"
+	"sort"
 	"sync"
 	"sync/atomic"
 	"time"
@@ -141,6 +142,7 @@ func c12prepare(c *core.Ctx, r *rand.Rand) *c12shared {
 type c12interval struct {
 	kind      string
 	call, ret int64
+	g         int
 }
 
 var c12sig struct {
@@ -351,7 +353,7 @@ func runC12(c *core.Ctx, i int) {
 					}
 					mySchemaOps = append(mySchemaOps, porcupine.Operation{ClientId: g, Input: regOp{Key: key}, Call: call, Output: id, Return: ret})
 				}
-				myIv = append(myIv, c12interval{kind, call, c12clock.Add(1)})
+				myIv = append(myIv, c12interval{kind, call, c12clock.Add(1), g})
 			}
 			mu.Lock()
 			intervals = append(intervals, myIv...)
@@ -446,12 +448,18 @@ func runC12(c *core.Ctx, i int) {
 			return
 		}
 	}
-	// interleaving signature of this round: order of hook-point hits
+	// interleaving signature of this round: the order in which the goroutines' operations completed
+	// (client boundary, independent of hooks) plus the order of hook-point hits where call sites exist
 	n := c12sig.idx.Load()
 	if n > int64(len(c12sig.buf)) {
 		n = int64(len(c12sig.buf))
 	}
-	c.Shape(fmt.Sprintf("N%d|%x", N, c12sig.buf[:n]))
+	sort.Slice(intervals, func(a, b int) bool { return intervals[a].ret < intervals[b].ret })
+	var order []byte
+	for _, iv := range intervals {
+		order = append(order, byte(iv.g))
+	}
+	c.Shape(fmt.Sprintf("N%d|%x|%x", N, order, c12sig.buf[:n]))
 	c.Count("hook-hits-in-rounds", n)
 	c.Sample(map[string]any{"goroutines": N, "ops_per_goroutine": opsPer, "overlapping_kind_pairs": len(pairs), "codec_registry_history": len(codecHist), "schema_registry_history": len(schemaHist)})
 }
